@@ -169,7 +169,7 @@ func TestProp_RandomMutations(t *testing.T) {
 		i := rapid.IntRange(0, len(tgs)-1).Draw(t, "target")
 		tg := tgs[i]
 		b, s := tg.req.Bundle, tg.req.BundleSignature
-		kind := rapid.SampledFrom([]string{"multi-byte-bundle", "multi-byte-signature", "foreign-signature", "foreign-bundle", "resigned-by-other-key", "append-bundle", "empty-signature", "zero-signature", "splice"}).Draw(t, "kind")
+		kind := rapid.SampledFrom([]string{"multi-byte-bundle", "multi-byte-signature", "foreign-signature", "foreign-bundle", "resigned-by-other-key", "append-bundle", "append-signature", "repeat-signature", "prepend-signature", "empty-signature", "zero-signature", "splice"}).Draw(t, "kind")
 		m := &types.FetchNodeCredentialsRequest{Bundle: append([]byte(nil), b...), BundleSignature: append([]byte(nil), s...)}
 		p := 0
 		switch kind {
@@ -192,6 +192,13 @@ func TestProp_RandomMutations(t *testing.T) {
 			m.BundleSignature = ed25519.Sign(priv, b)
 		case "append-bundle":
 			m.Bundle = append(m.Bundle, rapid.SliceOfN(rapid.Byte(), 1, 8).Draw(t, "tail")...)
+		case "append-signature":
+			// the genuine signature followed by more bytes
+			m.BundleSignature = append(m.BundleSignature, rapid.SliceOfN(rapid.Byte(), 1, 70).Draw(t, "tail")...)
+		case "repeat-signature":
+			m.BundleSignature = append(m.BundleSignature, s...)
+		case "prepend-signature":
+			m.BundleSignature = append(rapid.SliceOfN(rapid.Byte(), 1, 70).Draw(t, "head"), s...)
 		case "empty-signature":
 			m.BundleSignature = nil
 		case "zero-signature":
